@@ -79,6 +79,7 @@ type Expr struct {
 	Fors  []*Phrase
 	Tys   []*Ty
 	Two   bool
+	Cmd   bool // errBang/errQ written in command style: `f! a, b` / `f? a` (statement position only)
 	D     *Expr
 }
 
@@ -135,6 +136,7 @@ func Var(x string) *Expr    { return &Expr{K: "var", S: x} }
 func Bin(op string, a, b *Expr) *Expr {
 	return &Expr{K: "bin", S: op, Args: []*Expr{a, b}}
 }
+func Neg(a *Expr) *Expr                 { return &Expr{K: "neg", Args: []*Expr{a}} }
 func Not(a *Expr) *Expr                 { return &Expr{K: "not", Args: []*Expr{a}} }
 func SliceLit(t *Ty, es ...*Expr) *Expr { return &Expr{K: "sliceLit", T: t, Args: es} }
 func MapLit(k, v *Ty, kvs ...[2]*Expr) *Expr {
@@ -218,7 +220,50 @@ func xs(es []*Expr, f func(*Expr) string) string {
 // CallCode is the text the compiler records in an error frame for the wrapped call
 // (printer.Fprint of v.X); arguments of wrapped calls are kept to atoms and probe calls so that
 // gofmt spacing rules cannot differ.
-func (e *Expr) CallCode() string { return e.S + "(" + xs(e.Args, (*Expr).XGo) + ")" }
+func (e *Expr) CallCode() string {
+	if e.Cmd {
+		return e.S + " " + xs(e.Args, (*Expr).XGo)
+	}
+	return e.S + "(" + xs(e.Args, (*Expr).XGo) + ")"
+}
+
+// MinParens selects the surface syntax of the XGo writer: false = every binary expression and
+// every `?:` default parenthesised; true = only the parentheses the documented precedence needs
+// (|| < && < comparison < + - < * % < unary and `x?:d` < postfix `x!` `x?` calls index; the
+// default of `?:` is a unary expression).  Set per scenario by the runner.
+var MinParens bool
+
+func (e *Expr) prec() int {
+	switch e.K {
+	case "bin":
+		switch e.S {
+		case "lor":
+			return 1
+		case "land":
+			return 2
+		case "eq", "ne", "lt", "le", "gt", "ge":
+			return 3
+		case "add", "sub":
+			return 4
+		}
+		return 5
+	case "not", "neg", "errDflt":
+		return 6
+	case "int":
+		if e.N < 0 {
+			return 6
+		}
+	}
+	return 7
+}
+
+// px prints e as an operand that must bind at least as tightly as need.
+func (e *Expr) px(need int) string {
+	if e.prec() < need {
+		return "(" + e.XGo() + ")"
+	}
+	return e.XGo()
+}
 
 func (e *Expr) srcName() string {
 	if e.XS != "" {
@@ -244,9 +289,24 @@ func (e *Expr) XGo() string {
 	case "var":
 		return e.S
 	case "bin":
+		if MinParens {
+			p := e.prec()
+			return e.Args[0].px(p) + " " + goOps[e.S] + " " + e.Args[1].px(p+1)
+		}
 		return "(" + e.Args[0].XGo() + " " + goOps[e.S] + " " + e.Args[1].XGo() + ")"
 	case "not":
+		if MinParens {
+			return "!" + e.Args[0].px(6)
+		}
 		return "!" + e.Args[0].XGo()
+	case "neg":
+		if MinParens {
+			if e.Args[0].K == "neg" || (e.Args[0].K == "int" && e.Args[0].N < 0) {
+				return "-(" + e.Args[0].XGo() + ")" // `--x` is the decrement token
+			}
+			return "-" + e.Args[0].px(6)
+		}
+		return "-(" + e.Args[0].XGo() + ")"
 	case "sliceLit":
 		return "[" + xs(e.Args, (*Expr).XGo) + "]"
 	case "xmapLit":
@@ -256,7 +316,7 @@ func (e *Expr) XGo() string {
 		}
 		return "{" + strings.Join(ss, ", ") + "}"
 	case "index":
-		return e.Args[0].XGo() + "[" + e.Args[1].XGo() + "]"
+		return e.Args[0].px(7) + "[" + e.Args[1].XGo() + "]"
 	case "len":
 		return "len(" + e.Args[0].XGo() + ")"
 	case "call":
@@ -274,10 +334,19 @@ func (e *Expr) XGo() string {
 	case "existsCompr":
 		return "{" + strings.TrimPrefix(phrasesXGo(e.Fors), " ") + "}"
 	case "errBang":
+		if e.Cmd {
+			return e.S + "! " + xs(e.Args, (*Expr).XGo)
+		}
 		return e.CallCode() + "!"
 	case "errQ":
+		if e.Cmd {
+			return e.S + "? " + xs(e.Args, (*Expr).XGo)
+		}
 		return e.CallCode() + "?"
 	case "errDflt":
+		if MinParens {
+			return e.CallCode() + "?:" + e.D.px(6)
+		}
 		return e.CallCode() + "?:(" + e.D.XGo() + ")"
 	}
 	panic("XGo: bad expr kind " + e.K)
@@ -438,6 +507,8 @@ func (e *Expr) SExp() string {
 		return "(bin " + e.S + ss(e.Args) + ")"
 	case "not":
 		return "(not" + ss(e.Args) + ")"
+	case "neg": // the model has no unary minus: -x is 0 - x
+		return "(bin sub (lit (i 0))" + ss(e.Args) + ")"
 	case "sliceLit":
 		return "(sliceLit " + e.T.S() + ss(e.Args) + ")"
 	case "xmapLit":
